@@ -944,7 +944,10 @@ func SpecContains(s string, sub string) bool { return false }
 //@   properties C04
 //@   ghost var delCalls mathint = 0
 //@   requires nonnil: ro != nil
-//@   modifies heap, delCalls, phase, curDb
+//@   modifies heap, delCalls, phase, curDb, wantRun
 //@   set delCalls = delCalls + 1 at call DelCheckpoint
-//@   assert at call DelCheckpoint: the_position_of_this_checkpoint_and_run_id_is_withdrawn: checkpointName == ro.cfg.CheckpointName && arg2 == runId
+//   wantRun  the run id this activation was asked to withdraw (the callee's parameter is also called runId)
+//@   ghost var wantRun string
+//@   set wantRun = runId at call NewRedisConn
+//@   assert at call DelCheckpoint: the_position_of_this_checkpoint_and_run_id_is_withdrawn: arg1 == ro.cfg.CheckpointName && arg2 == wantRun
 //@   ensures success_means_withdrawn: result == nil ==> delCalls == old(delCalls) + 1
